@@ -93,6 +93,13 @@ def run(ctx):
             ob.status, ob.detail = 'failed', 'nested class bodies differ'
             continue
         sets = argsets.generic(n, ctx.seed, ctx.pick(400, 4000))
+        # texts that the text-handling helpers treat specially (wildcards, escapes, operator prefixes, error values): every
+        # pair of them in the first two positions, the remaining positions None
+        special = ['a*b', 'a~*b', '~?', 'a?b', '~~', '~~?', '=5', '<>x', '>3', 'TRUE', '', 'x', 'A', '#N/A', 5, 0, 2.5, None, True]
+        if n >= 2:
+            sets = [[a, b_] + [None] * (n - 2) for a in special for b_ in special] + sets
+        elif n == 1:
+            sets = [[a] for a in special] + sets
         if name == '_regexp':
             sets = [[p] for p in ['a?', 'a??b', '*x', 'a~?b', 'a~*', '[a]', 'plain', '', '?', 'x*y?z', '~~?']] + sets
         r = native.call('basic', 'call_both', name=name, argsets=sets)
